@@ -168,6 +168,7 @@ class ConsensusRun(object):
         self.next_doc = 1           # next replacement document to emit (0 goes out with GETINFO ns/all)
         self.last_checked = -1
         self.prev_objs = {}
+        self.all_objs = []          # every Router object a document has ever been represented by
         self.boot = dict(fired=0, ok=None)
         self.cmds = []              # dicts: kind, done
         self.ns_reply_idx = None
@@ -521,6 +522,9 @@ class ConsensusRun(object):
             if self.ch.chance(1, 3, 'xdata'):
                 return Reply(250, [('data', key + '=', ['line one', 'r looks like a relay line', 's Guard'])], 'OK')
             return ok(key + '=v')
+        if line.startswith('GETINFO ip-to-country/'):
+            # (asked for the relays of a circuit's path)
+            return ok(line[len('GETINFO '):] + '=' + ('??' if 'unknown' in line else 'us'))
         raise HarnessError('the scripted server has no answer for %r' % line)
 
     # ------------------------------------------------------------------ workload
@@ -558,6 +562,18 @@ class ConsensusRun(object):
         # control-spec 4.1.15: "650+NEWCONSENSUS" CRLF (router status entries) "." CRLF "650 OK" CRLF
         self.peer.send_event('data', 'NEWCONSENSUS', '', doc.lines())
         doc.end = self.peer.sent
+        if k >= 1 and 'CIRC' in self.peer.setevents[-1]:
+            prev = self.docs[k - 1]
+            gone = sorted(hx for hx in prev.by_hex if hx not in doc.by_hex)
+            if gone and self.ch.chance(1, 2, 'circafter'):
+                # the state tracker also follows circuits: Tor reports one whose path still runs through a relay that has
+                # just left the consensus. Whatever stands in for that relay in a circuit's path, it is not a relay of the
+                # latest document (and nothing of the previous document comes back through it)
+                hx = gone[0]
+                path = [hx + '~' + prev.by_hex[hx].nick] + [h + '~' + doc.by_hex[h].nick for h in sorted(doc.by_hex)[:1]]
+                self.peer.send_event('single', 'CIRC', '%d BUILT %s PURPOSE=GENERAL' % (100 + k, ','.join(path)))
+                doc.circ_end = self.peer.sent       # the view is compared once more when this has been delivered
+                sim.probe('circuit-event-names-a-departed-relay')
         sim.probe('doc-via-newconsensus')
         sim.log('doc-sent', k, 'NEWCONSENSUS', len(doc.entries), 'ends-at', doc.end)
 
@@ -624,6 +640,12 @@ class ConsensusRun(object):
                 break
             latest = k
         if latest is None:
+            k = self.last_checked
+            if k >= 1 and getattr(self.docs[k], 'circ_end', None) is not None and self.docs[k].circ_end <= delivered and \
+                    (k + 1 >= self.next_doc or self.docs[k + 1].end is None or self.docs[k + 1].end > delivered):
+                # a circuit event that names a departed relay has been delivered and this is still the latest document
+                self.docs[k].circ_end = None
+                self.check_doc(k)
             return
         if latest - self.last_checked >= 2:
             sim.probe('docs-coalesced')
@@ -806,6 +828,8 @@ class ConsensusRun(object):
             if key in exp or key in nick_objs:
                 continue
             if isinstance(key, str) and key.startswith('$'):
+                if val is not None and not getattr(val, 'from_consensus', True) and not any(val is o for o in self.all_objs):
+                    continue    # a stand-in made for a circuit's path (router_from_id): it claims nothing about the consensus
                 sim.fail('C16.stale-relay-in-routers', '%s: routers still has %r which is not in the latest document' % (tag, key))
             if val is not None:
                 sim.fail('C16.lookup-by-departed-nickname-resolves', '%s: routers[%r] resolves to %s but no relay of the latest document has that nickname' % (
@@ -824,6 +848,7 @@ class ConsensusRun(object):
         self.check_collection(k, tag, 'authorities', 'Authority', st.authorities, exp, objs, earlier)
 
         self.prev_objs = objs
+        self.all_objs.extend(o for o in objs.values() if not any(o is x for x in self.all_objs))
 
     def check_collection(self, k, tag, attr, flag, coll, exp, objs, earlier):
         sim = self.sim
